@@ -260,6 +260,38 @@ def rep_group_tail_trees():
     return out
 
 
+CLASS_NAMES = ["alnum", "alpha", "blank", "cntrl", "digit", "graph", "lower", "print", "punct", "space", "upper", "xdigit"]
+
+
+def class_sweep_lines(names):
+    """every named class of ctype_list (plain, negated, next to other members, two classes in one bracket), in ERE and
+    BRE, with and without REG_ICASE / REG_NEWLINE, against EVERY one-byte subject 1..255 and strings that sweep the
+    ASCII range: the model's class tables (POSIX "C" locale, lean/Usual/C04/Parse.lean classPred) vs. the ctype
+    functions regex.c calls (the library's own wrappers in usual/ctype.h)"""
+    single = [bytes([b]) for b in range(1, 256)]
+    ctl = bytes(list(range(1, 32)) + [127])
+    sweeps = [bytes(range(1, 128)), bytes(range(127, 0, -1)), ctl, b"a\tb", b"a\nb", b"a\x0bb", b"a\x0cb", b"a\rb",
+              b"a\x1cb", b"a\x1db", b"a\x1eb", b"a\x1fb", b"a\x7fb", b"a b", b"@[`{/:", b"AZaz09", b"GgFf", b"\x0b\x0c",
+              b"_-~!", bytes(range(128, 256))]
+    lines = []
+    for nm in names:
+        c = b"[:" + nm.encode() + b":]"
+        for cf in (EXT, EXT | ICASE, EXT | NEWLINE, EXT | ICASE | NEWLINE, 0, ICASE):
+            for pat in (b"[" + c + b"]", b"[^" + c + b"]", b"[" + c + b"_]", b"[^_" + c + b"]"):
+                lines.append(xline(cf, pat, [0, 1], [0], single))
+            rep1 = b"+" if cf & EXT else b"\\{1,\\}"
+            for pat in (b"[" + c + b"]" + rep1, b"[^" + c + b"]" + rep1, b"a[" + c + b"]b", b"a[^" + c + b"]b",
+                        b"^[" + c + b"]*$"):
+                lines.append(xline(cf, pat, [1, "m"], [0], sweeps))
+    for i, a in enumerate(names):           # two classes in one bracket expression
+        b2 = names[(i + 5) % len(names)]
+        pat = b"[[:" + a.encode() + b":][:" + b2.encode() + b":]]"
+        for cf in (EXT, EXT | ICASE):
+            lines.append(xline(cf, pat, [1], [0], single))
+            lines.append(xline(cf, b"[^" + pat[1:], [1], [0], single))
+    return lines
+
+
 def rand_subject(rng, maxlen):
     n = rng.below(maxlen + 1)
     style = rng.below(4)
@@ -871,7 +903,7 @@ def run(ck):
     ck.cov["explanation"] = (
         "Exploration with a proved oracle plus an executable Lean model of the C matcher.  The model of usual_regexec "
         "(CM.cExec) is compared with the C code on the whole pmatch array of every execution and is proved equal to the "
-        "reference (rc and pmatch[0]) on every pattern without a repeated group.  Kernel-checked Lean theorems establish that the reference used as oracle is "
+        "reference (rc and pmatch[0]) on every tree of the parser's shape, repeated groups included (cmatch_refines_llmatch).  Kernel-checked Lean theorems establish that the reference used as oracle is "
         "right: `ends` is sound and complete for the declarative POSIX semantics `Matches` (anchors/flags in context), "
         "`llmatch` is exactly the leftmost-longest overall match (and `none` iff no substring matches), and the parser "
         "models invert the ERE/BRE renderers on the full supported syntax (bracket expressions from bitmaps).  The C matcher is not proved: regcomp rc/"
@@ -906,7 +938,9 @@ def run(ck):
         "group with a 1-3 atom/alternative body over {a,b,.}, one level of nesting, followed by an optional/overlapping tail) x all "
         "subjects over {a,b} up to length 6; random trees up to 12 "
         "nodes with bracket expressions/high bytes/escaped specials and subjects up to 40; byte mutations of rendered "
-        "patterns and hand-made members of every regerror class; AT&T table.  A case is distinct = (cflags, pattern "
+        "patterns and hand-made members of every regerror class; family class-sweep (every named class of ctype_list plain/negated/"
+        "combined, ERE and BRE, with/without REG_ICASE and REG_NEWLINE, against every one-byte subject 1..255 and strings sweeping the "
+        "ASCII range incl. all control characters); AT&T table.  A case is distinct = (cflags, pattern "
         "bytes); non-trivial = compiles and is executed on at least one subject")
     rng = vf.SplitMix(ck.seed)
     rn = Runner(ck, hcmd, dcmd)
@@ -933,6 +967,17 @@ def run(ck):
             lines.append(xline(cf | (EXT if ere else 0), pat, [0, 1, "m"], [0, 48], [b"", b"a", b"ab\n", b"a)b]}{a"]))
     rn.run_x(lines, "handmade")
     ck.cov["handmade_patterns"] = len(MALFORMED) + len(WELLFORMED_EDGE)
+
+    # ---- every named class x every byte value (class tables of the model vs. the ctype functions regex.c calls)
+    names = c04_gen.generate(vf.REPO)[2]
+    if sorted(names) != sorted(CLASS_NAMES):
+        ck.report("int", {"label": "class-sweep", "ops": [], "where": "ctype_list of regex.c names %s, the Lean classPred and "
+                          "the class-sweep family know %s" % (names, CLASS_NAMES)})
+    lines = class_sweep_lines(names)
+    rn.run_x(lines, "class-sweep")
+    ck.cov["class_sweep"] = {"classes": len(names), "lines": len(lines), "subject_bytes": "1..255 (each as a one-byte subject)"}
+    if enough():
+        return
 
     # ---- AT&T regression table
     run_att(ck, rn, hcmd, dcmd)
